@@ -193,6 +193,17 @@ func (f *file) skeleton(fd *ast.FuncDecl) []string {
 				emit("}")
 				return false
 			case *ast.CallExpr:
+				if fl, ok := t.Fun.(*ast.FuncLit); ok {
+					// a function literal called on the spot (go func(){..}(), defer func(){..}()): its body is part of
+					// the skeleton whatever it mentions (the text filters below are for plain calls only)
+					for _, a := range t.Args {
+						exprCalls(a)
+					}
+					emit("func{")
+					block(fl.Body)
+					emit("}()")
+					return false
+				}
 				txt := callText(t)
 				if isLogging(txt) || strings.HasPrefix(txt, "fmt.Errorf") || strings.HasPrefix(txt, "fmt.Sprintf") ||
 					strings.HasPrefix(txt, "schema.PointerTo") || strings.HasPrefix(txt, "string(") ||
@@ -451,6 +462,8 @@ func main() {
 	extractAccess(*repo, files)
 	extractEngineApi(*repo, files)
 	extractFrame(*repo, files)
+	extractRecover(*repo, files)
+	extractSinks(*repo, files)
 	sort.Strings(fx.Unknown)
 	files["Unknown.lean"] = "-- GENERATED by /verif/extract from /repo; do not edit.\nnamespace Arca.Gen\n\n/-- constructs the extractor did not recognise -/\ndef unknown : List String := " +
 		leanStrList(fx.Unknown) + "\n\nend Arca.Gen\n"
